@@ -72,6 +72,15 @@ def check_case(sink, c, o):  # noqa: C901
             sink.check(sp == spec and spec == sp and not (sp != spec), f'spec-eq/{name}', f'{name} returns an equal treespec', ident, lambda: (str(sp), str(spec)))
             sink.check(hash(sp) == hash(spec), f'spec-hash/{name}', f'{name} treespec hashes equally', ident, lambda: (str(sp), str(spec)))
             sink.check(repr(sp) == repr(spec), f'spec-repr/{name}', f'{name} treespec has the same repr', ident, lambda: (str(sp), str(spec)))
+        # observational equality of the treespecs: each entry point's treespec rebuilds the input from that entry point's leaves
+        lids = {id(x) for x in leaves}
+        if not (lids & same.partial_children_ids(c.tree)):
+            for name, sp, lv in (('with_path', spec_b, leaves_b), ('with_accessor', spec_c, leaves_c), ('tree_structure', spec_f, leaves_d)):
+                d = same.diff(c.tree, sp.unflatten(lv), leaf_ids=lids)
+                sink.check(d is None, f'spec-unflatten/{name}', f'the treespec returned by {name} rebuilds the same tree (types, key order, metadata, leaves)', ident, d)
+                sink.check(_paths_eq(sp.paths(), spec.paths()) and [tuple(e.entry for e in a) for a in sp.accessors()] == [tuple(e.entry for e in a) for a in spec.accessors()]
+                           and sp.num_nodes == spec.num_nodes and sp.num_leaves == spec.num_leaves,
+                           f'spec-paths/{name}', f'the treespec returned by {name} has the same paths, accessors and counts', ident)
         later_paths = spec.paths()
         later_acc = spec.accessors()
         sink.check(_paths_eq(paths_b, later_paths), 'paths/with_path-vs-spec', 'flatten_with_path paths equal treespec.paths()', ident, lambda: (paths_b, later_paths))
